@@ -58,6 +58,49 @@ func guard(outs map[string]string, name string, f func() string) {
 	outs[name] = f()
 }
 
+// GenerateIsolated generates every target on an analysis of its own: nothing
+// generated before it can have touched the analysis (or any other state) it
+// reads. The texts must equal those of GenerateAll, where the targets run one
+// after the other on one shared analysis per file.
+func (l *Loaded) GenerateIsolated() map[string]string {
+	outs := map[string]string{}
+	for i, file := range l.Files {
+		rel, _ := filepath.Rel(l.Dir, file)
+		fresh := func() *analysis.Analysis { return analysis.NewAnalysisFromFile(l.Pkgs[i], file) }
+		guard(outs, "go/unions:"+rel, func() string { return generator.WriteDeclarations(gounions.Generate(fresh())) })
+		guard(outs, "go/sqlcrud:"+rel, func() string { return generator.WriteDeclarations(sqlcrud.Generate(fresh(), false)) })
+		guard(outs, "go/sqlcrud+sets:"+rel, func() string { return generator.WriteDeclarations(sqlcrud.Generate(fresh(), true)) })
+		guard(outs, "go/randdata:"+rel, func() string { return generator.WriteDeclarations(randdata.Generate(fresh())) })
+		guard(outs, "sql:"+rel, func() string { return generator.WriteDeclarations(sql.Generate(fresh())) })
+		guard(outs, "typescript/types:"+rel, func() string { return generator.WriteDeclarations(typescript.Generate(fresh())) })
+		guard(outs, "typescript/api:"+rel, func() string {
+			ana := fresh()
+			return typescript.GenerateAxios(httpapi.ParseEcho(ana.Pkg, file, ""))
+		})
+	}
+	guard(outs, "dart", func() string {
+		var anas []*analysis.Analysis
+		for i, file := range l.Files {
+			var ana *analysis.Analysis
+			func() {
+				defer func() { recover() }()
+				ana = analysis.NewAnalysisFromFile(l.Pkgs[i], file)
+			}()
+			if ana != nil {
+				anas = append(anas, ana)
+			}
+		}
+		var names []string
+		for _, o := range dart.Generate(l.Root, anas) {
+			outs["dart:"+o.Filename] = generator.WriteDeclarations(o.Content)
+			names = append(names, o.Filename)
+		}
+		sort.Strings(names)
+		return strings.Join(names, ",")
+	})
+	return outs
+}
+
 // GenerateAll analyses every file afresh and runs all seven targets.
 // A panic is an outcome like any other (its text is the output).
 func (l *Loaded) GenerateAll() map[string]string {
